@@ -17,26 +17,45 @@ func modeBits(mode int) (m, x, e uint8) {
 }
 
 // StepLemma: one Step of either interpreter from any state.
-func StepLemma(cpu int, op int, mode int) {
+func StepLemma(cpu int, op int, mode int, intr int) {
 	m, x, e := modeBits(mode)
 	pre := cpuenv.ArbitraryPre(m, x, e)
-	pre.Interrupt = pre.Interrupt & 1
+	// intr < 0: no interrupt entry (latch 0 or 1, symbolic); 2 / 3: a pending NMI / IRQ is delivered
+	if intr < 0 {
+		pre.Interrupt = pre.Interrupt & 1
+	} else {
+		pre.Interrupt = uint8(intr)
+	}
 	pre.Stopped = vp.Bool("stopped")
 	opAddr := uint32(pre.RK)<<16 | uint32(pre.PC)
 	var n int
 	var stopped, latch, panicked bool
 	var all uint64
 	var cyc uint8
+	mem := cpuenv.MainMem
+	if cpu == 1 {
+		mem = cpuenv.AltMem
+	}
+	vp.FillBytes("mem", mem)
+	mem[opAddr] = uint8(op)
+	if pre.Interrupt >= 2 {
+		// interrupt entry (pending NMI/IRQ): the instruction executed is the one at the handler address;
+		// its opcode is pinned by assumption and kept clear of the pushed frame (as in C02)
+		vec := uint32(0xFFEA)
+		bank := uint32(pre.RK) << 16
+		if pre.Interrupt == 3 {
+			vec, bank = 0xFFEE, 0
+		}
+		target := uint32(mem[vec]) | uint32(mem[vec+1])<<8
+		vp.Assume(target >= 0x2000 && target < 0xFF00 && pre.SP >= 0x0100 && pre.SP < 0x1F00)
+		vp.Assume(mem[bank|target] == uint8(op))
+	}
 	if cpu == 0 {
-		vp.FillBytes("mem", cpuenv.MainMem)
-		cpuenv.MainMem[opAddr] = uint8(op)
 		c := cpuenv.Main
 		pre.ToMain(c)
 		panicked = vp.Try(func() { n, stopped = c.Step() })
 		all, cyc, latch = c.AllCycles, c.Cycles, c.Stopped
 	} else {
-		vp.FillBytes("mem", cpuenv.AltMem)
-		cpuenv.AltMem[opAddr] = uint8(op)
 		c := cpuenv.Alt
 		pre.ToAlt(c)
 		panicked = vp.Try(func() { n, stopped = c.Step() })
